@@ -213,7 +213,7 @@ fn programs(tier: Tier) -> (Vec<E>, J) {
     }
     let shape_count = all.len();
     // F-leaf: every literal kind of the macro in every one-hole context
-    let rich = [E::Null, E::True, E::False, E::Lit("1"), E::Lit("-2"), E::Lit("1.5"), E::Lit("-0.25"), E::Lit("0"), E::Lit("2147483647"), E::Str("s"), E::Str(""), E::Str("k\u{e9}"), E::Expr, E::Arr(vec![], false), E::Obj(vec![], false)];
+    let rich = [E::Null, E::True, E::False, E::Lit("1"), E::Lit("-2"), E::Lit("-1"), E::Lit("-9"), E::Lit("9"), E::Lit("10"), E::Lit("-10"), E::Lit("255"), E::Lit("256"), E::Lit("-128"), E::Lit("65536"), E::Lit("-2147483648"), E::Lit("1.5"), E::Lit("-0.25"), E::Lit("0.5"), E::Lit("100.25"), E::Lit("0"), E::Lit("2147483647"), E::Str("s"), E::Str(""), E::Str("k\u{e9}"), E::Expr, E::Arr(vec![], false), E::Obj(vec![], false)];
     let a = || KeyForm::Lit("a");
     let b = || KeyForm::Lit("b");
     for x in &rich {
@@ -465,7 +465,7 @@ fn main() {
     let (progs, bounds) = programs(args.tier);
     rep.bounds = bounds;
     run_programs(&mut rep, &progs, args.tier, args.tier.name());
-    rep.rule = "programs are enumerated from a grammar with one production per macro arm: null/true/false, integer and float literals (incl. negative), string literals, expression elements, nested arrays and objects up to depth 3, keys as string literal / parenthesised literal / expression munched token by token, duplicate keys, trailing comma present or absent in every non-empty container; shape family: every document up to the node bound over 3 leaves x 4 key forms; leaf family: 16 literal kinds x 19 one-hole contexts; each program is compiled and its value compared (==) with Value::parse_str of the same document as JSON text; distinct = distinct programs that compiled, ran and compared".into();
+    rep.rule = "programs are enumerated from a grammar with one production per macro arm: null/true/false, integer and float literals (incl. negative), string literals, expression elements, nested arrays and objects up to depth 3, keys as string literal / parenthesised literal / expression munched token by token, duplicate keys, trailing comma present or absent in every non-empty container; shape family: every document up to the node bound over 3 leaves x 4 key forms; leaf family: every literal kind (see bounds) x 19 one-hole contexts; each program is compiled and its value compared (==) with Value::parse_str of the same document as JSON text; distinct = distinct programs that compiled, ran and compared".into();
     rep.assumptions.push("number literals are restricted to those whose JSON spelling is the literal itself (DESIGN A.7.7); rustc's macro expander is trusted".into());
     std::process::exit(rep.finish());
 }
